@@ -307,3 +307,28 @@ def globals_signature(schema):
         out.append(['substitution_group', name, sorted(e.name for e in members)])
     out.sort(key=lambda x: (x[0], x[1]))
     return out
+
+
+# --------------------------------------------------------------------------
+# per-run tuning knobs (correctness must not depend on one configuration)
+
+def gen_knobs(rng):
+    return {'selectors_prefill': rng.choice([0, 0, 98, 100, 101]), 'use_cache': rng.random() < 0.75}
+
+
+def apply_knobs(schema, knobs):
+    """Pre-fill the module-level XPath selectors cache to its clear threshold; switch the schema's memo cache."""
+    if not knobs:
+        return
+    n = knobs.get('selectors_prefill', 0)
+    if n:
+        import xmlschema.xpath.selectors as sel
+        for k in range(n):
+            key = (f'prefill{k}', sel.ElementSelector)
+            if key not in sel._selectors_cache:
+                sel._selectors_cache[key] = sel.ElementSelector(f'prefill{k}')
+    if knobs.get('use_cache') is False:
+        try:
+            schema.maps.cache.enabled = False
+        except Exception:
+            pass
